@@ -73,7 +73,8 @@ def degenerate_input(rng: random.Random, flavour: int) -> Dict:
         b, _ = gen.cut_query(rng, xs, w0, w0 + w, sigma=60)
         b = gen.mirror_query(b)
         q([v - pat[0] for v in pat] + [pat[-1] - pat[0] + gap + v - b[0] for v in b])
-    elif flavour % 8 == 0:      # one- and two-label molecules
+    elif flavour % 8 == 0:      # one- and two-label molecules; a molecule that spans the whole labelled part of a reference
+        q(list(refs[0]["bp"]), length_extra=rng.choice([1, 10, 500]))      # (the seeding correlation then has one sample)
         q([500])
         q([100, 9000])
         q([0])
